@@ -322,7 +322,7 @@ fn check_binary_positions(ctx: &Ctx, named: &[PathBuf], dir: &Path, reports: &[R
 
 fn project_case(ctx: &Ctx, tape: &[u8], rec: &Rec, with_binary: bool) -> Verdict {
     let mut t = Tape::new(tape);
-    let p = gen_project(&mut t, ProjOpts { comments: true, ..ProjOpts::default() });
+    let p = gen_project(&mut t, ProjOpts { comments: true, bom_chance: 20, ..ProjOpts::default() });
     let dir = scratch(ctx, "c04");
     let r = project_case_in(ctx, &p, rec, &dir, with_binary).map_err(|b| if b.rendered.is_empty() { b.rendered(p.describe()) } else { b });
     let _ = std::fs::remove_dir_all(&dir);
